@@ -95,6 +95,7 @@ def _register_all():
         reg(name, tier, lambda: S.SpiSlaveHarness(name, **kw))
     spis("spi.slave(dw=4,half=3)", "quick", dw=4, half=3)
     spis("spi.slave(dw=4,half=4)", "quick", dw=4, half=4)
+    spis("spi.slave(dw=4,half=3,chip select released for 1+ cycles)", "quick", dw=4, half=3, mingap=1, nwords=2)
     spis("spi.slave(dw=4,half=5,skew=1)", "quick", dw=4, half=5, skew=1)
     spis("spi.slave(dw=4,half=4,loopback)", "quick", dw=4, half=4, loopback=1)
     spis("spi.slave(dw=8,half=4)", "thorough", dw=8, half=4, nwords=4)
